@@ -106,7 +106,7 @@ def ref_run(block, tabs, max_events=100000):
     return o.events, show_ret(last), show_ret(last_step)
 
 
-def build_workchain(block, tabs, name='GenChain'):
+def build_workchain(block, tabs, name='GenChain', alias=False):
     """A real plumpy WorkChain subclass whose outline is `block`; step/predicate methods consult the oracle tables."""
     import plumpy
     from plumpy.workchains import if_, while_, return_
@@ -147,8 +147,13 @@ def build_workchain(block, tabs, name='GenChain'):
         pred.__name__ = f'p{p}'
         return pred
 
+    order = sorted(fs)
     for f in fs:
         ns[f's{f}'] = mk_step(f)
+        if alias:
+            # step functions made by a factory: the function's __name__ is NOT the attribute it is stored under (it names another
+            # step, or the inherited method `step`); the outline refers to the function object, which is what must be called
+            ns[f's{f}'].__name__ = f's{order[(order.index(f) + 1) % len(order)]}' if len(order) > 1 else 'step'
     for p in ps:
         ns[f'p{p}'] = mk_pred(p)
 
